@@ -358,6 +358,7 @@ class Ctx:
               "violations": len(self.violations)}
         # evidence of runs against a scratch copy (mutation self-tests) must not clobber the real one
         evdir = os.path.join(VERIF, "evidence") if REPO == "/repo" else os.path.join(OUT, "evidence-scratch")
+        evdir = os.environ.get("VERIF_EVIDENCE_DIR", evdir)   # e.g. a sweep that must not touch evidence/
         os.makedirs(evdir, exist_ok=True)
         with open(os.path.join(evdir, self.pid + ".json"), "w") as f:
             json.dump(ev, f, indent=1, default=str)
